@@ -2,7 +2,8 @@
 # Builds the engine offline from files on disk (module cache: golang.org/x/tools v0.29.0).
 set -e
 export GOFLAGS=-mod=mod GOPROXY=off GOSUMDB=off GOTOOLCHAIN=local CGO_ENABLED=0
-mkdir -p /verif/bin /verif/evidence
-cd /verif/engine && go build -o /verif/bin/vsym ./cmd/vsym
+V="$(cd "$(dirname "$0")" && pwd)"
+mkdir -p "$V/bin" "$V/evidence"
+cd "$V/engine" && go build -o "$V/bin/vsym" ./cmd/vsym
 z3 --version >/dev/null
 echo "vsym built"
